@@ -9,7 +9,7 @@ import (
 
 func init() {
 	registerProperty(&Property{
-		ID: "C02",
+		ID:          "C02",
 		Explanation: "Decides structural necessary conditions of the recovery path: (R1) every Executor.Run implementation leaves the task in a state >= OK on every normal exit (a task left WAITING/RUNNING parks every evaluator waiting on it forever); (R2) an error that is the outcome of running the task (the Worker.Run RPC, reading the dependencies, buffering the output) makes the task ERR only behind errors.Match(fatalErr, err) (or, on the driver, a cancelled context), and the complementary branch marks it LOST, so machine loss is retried and user errors are not; (R3) the reader the worker uses for dependencies revises error severity (a peer's death is not task-fatal) while the driver-side result reader does not, and reviseSeverity downgrades fatal errors unless they are marked task-fatal; (R4) a stopped machine marks itself lost and takes its task set in one critical section, then marks every task LOST, and Assign tests `lost` in the same critical section in which it inserts; (R5) a post-evaluation read re-evaluates the task and only on success reopens the remote stream at the requested offset, on the machine that now holds the task; (R6 = C15-R5) resumption at the delivered offset; (R7 = C07-R2) torn reads are caught by the per-batch checksum. Not decided: that rows after recovery equal the failure-free rows, absence of hangs across all RPC kill points, anything about bigmachine itself; machine-combiner sessions are excluded as in the statement.",
 		Rules: []Rule{
 			{ID: "C02-R1", Doc: "Run leaves the task in a terminal state", Run: c02r1},
@@ -19,6 +19,10 @@ func init() {
 			{ID: "C02-R5", Doc: "scan re-evaluates before reopening", Run: c02r5},
 			{ID: "C15-R5", Doc: "retry reader resumes at the delivered offset (shared)", Run: c15r5},
 			{ID: "C07-R2", Doc: "checksum discipline (shared)", Run: c07r2},
+			{ID: "C03-R4", Doc: "bounded consecutive loss; a success ends the run of losses (shared)", Run: c03r4},
+			{ID: "C06-R7", Doc: "a failed combining attempt leaves nothing behind for its retry (shared)", Run: c06r7},
+			{ID: "C14-R8", Doc: "capacity that failed to start is released from the pending count, so replacements are started (shared)", Run: c14r8},
+			{ID: "C03-R5", Doc: "released dependents are re-examined, so a dependency lost in the meantime is recomputed (shared)", Run: c03r5},
 		},
 	})
 }
@@ -518,6 +522,64 @@ func c02r4(c *RC) {
 		}
 		c.Check(ok, run.QName()+"|completed-task-assigned-to-machine", pr.Pos(run.Body.Pos()), "a completed task is no longer assigned to its machine: when the machine dies nothing marks the task lost, and consumers retry reading from it forever")
 	}
+	// Assign is the last word on the task's state: Assign itself marks the task
+	// LOST when the machine has already stopped, so the task must have been made
+	// OK before it, and nothing may write its state after it.
+	nAssign := 0
+	for _, fn := range pr.FuncsIn("exec") {
+		if fn.Body == nil || fn.QName() == "exec.(*sliceMachine).Assign" {
+			continue
+		}
+		for _, k := range callsIn(fn.Body) {
+			if fn.Pkg.CalleeName(k) != "exec.(*sliceMachine).Assign" || len(k.Args) != 1 {
+				continue
+			}
+			nAssign++
+			task := expr(k.Args[0])
+			fl := pr.Flow(fn)
+			loc, okLoc := fl.LocOf(k)
+			if !okLoc {
+				c.Undecide("%s: Assign call not in the flow graph", fn.QName())
+				continue
+			}
+			isStateWrite := func(n ast.Node, onlyOK bool) bool {
+				return nodeHas(n, func(m ast.Node) bool {
+					call, isCall := m.(*ast.CallExpr)
+					if !isCall {
+						return false
+					}
+					sel, isSel := call.Fun.(*ast.SelectorExpr)
+					if !isSel || expr(sel.X) != task {
+						return false
+					}
+					switch fn.Pkg.CalleeName(call) {
+					case "exec.(*Task).Set":
+						return !onlyOK || (len(call.Args) == 1 && expr(call.Args[0]) == "TaskOk")
+					case "exec.(*Task).Error", "exec.(*Task).Errorf":
+						return !onlyOK
+					}
+					return false
+				})
+			}
+			dom, _ := fl.Dominated(loc, func(n ast.Node, st *Step) bool { return isStateWrite(n, true) })
+			c.Check(dom, fn.QName()+"|task-made-OK-before-Assign", pr.Pos(k.Pos()),
+				"the task is handed to its machine's task set on a path where it has not been marked OK yet")
+			late := ""
+			var trail []string
+			fl.Walk(Loc{loc.B, loc.I + 1}, "", nil, Visitor{NoFacts: true,
+				Node: func(n ast.Node, x string, st *Step) (string, bool) {
+					if isStateWrite(n, false) {
+						late = pr.Pos(n.Pos())
+						trail = st.Trail()
+						return x, true
+					}
+					return x, false
+				}})
+			c.Check(late == "", fn.QName()+"|no-state-write-after-Assign", pr.Pos(k.Pos()),
+				"the task's state is written (at "+late+") after the task was assigned to its machine: Assign marks the task LOST when the machine has stopped in the meantime, and the later write overwrites that mark — the task stays OK on a dead machine, nothing recomputes it, and its consumers are lost until they give up", trail...)
+		}
+	}
+	c.Floor("Assign call sites", nAssign, 1)
 	// startMachines launches sm.Go for each machine
 	if sm := pr.Fn("exec.startMachines"); sm != nil {
 		ok := false
